@@ -146,6 +146,9 @@ func (g *Gen) Flow(wide bool) *FlowSpec {
 	case 2:
 		lo := uint16(1 + g.c(60000, "plo"))
 		w := uint16(g.c(20, "pw"))
+		if g.c(8, "top-of-port-space") == 1 {
+			lo = 65535 - w // the range ends at the last port
+		}
 		f.HasPort, f.PortLo, f.PortHi = true, lo, lo+w
 		port = fmt.Sprintf(" %d-%d", lo, lo+w)
 	case 3:
